@@ -41,8 +41,9 @@ Theorem c15_show_seq_string : forall its pre rest, show_seq_ok rt_cfg its rest -
 Proof. exact RoundTripInst.rt_show_seq_string. Qed.
 Print Assumptions c15_show_seq_string.
 
-(* the same through a File *)
-Theorem c15_show_seq_file : forall its old rest, show_seq_ok rt_cfg its rest -> lits_plain its ->
+(* the same through a File; lits_ok: a literal that ends in white space is not followed by white space
+   (scanf's white-space directive would eat it) *)
+Theorem c15_show_seq_file : forall its old rest, show_seq_ok rt_cfg its rest -> lits_ok rt_cfg its rest ->
   scan_file rt_cfg (List.skipn (length old) (fst (print_to_file rt_cfg old (length old) its) ++ rest)%list) (length old)
     (List.map sitem_of its) nil
   = SOk (values_of its) (snd (print_to_file rt_cfg old (length old) its)).
@@ -90,7 +91,7 @@ Proof. exact RoundTripInst.rt_seq_string. Qed.
 Print Assumptions c15_seq_roundtrip_string.
 
 (* the same through a File *)
-Theorem c15_seq_roundtrip_file : forall its sits old rest, wf_seq rt_cfg its sits rest -> lits_plain its ->
+Theorem c15_seq_roundtrip_file : forall its sits old rest, wf_seq rt_cfg its sits rest -> lits_ok rt_cfg its rest ->
   exists vs',
     scan_file rt_cfg (List.skipn (length old) (fst (print_to_file rt_cfg old (length old) its) ++ rest)%list)
       (length old) sits nil
@@ -123,3 +124,5 @@ Example c15_ex_wf_seq : wf_seq rt_cfg ex_items_f ex_sitems_f ex_rest.
 Proof. exact RoundTripInst.ex_wf_seq. Qed.
 Example c15_ex_finite : finite 4728057454355442549%N.
 Proof. exact RoundTripInst.ex_finite. Qed.
+Example c15_ex_lits_ok : lits_ok rt_cfg ex_items ex_rest.
+Proof. exact RoundTripInst.ex_lits_ok. Qed.
